@@ -113,3 +113,18 @@ Proof.
   exists vi, k. repeat split; assumption.
 Qed.
 Print Assumptions C05_registry_presents_manifest_checksum.
+
+(* The locker is told a package-manifest checksum only for a package version the original lockfile
+   had no entry for (existing entries are never overwritten), and the value is the manifest's own
+   lockfileChecksum field or else the SHA-256 of exactly the manifest bytes that were used. *)
+Theorem C05_registry_locker_told_only_new : forall W o roots g,
+  Jsr.wf_jworld W = true -> Jsr.jbuild W o roots = Some g ->
+  forall v c, In (v, c) (Jsr.jg_lock_sets g) ->
+  JsrProofs.init_lock_get W v = None /\
+  exists vi, Jsr.v_meta (Jsr.ver_of W v) = Jsr.VOk vi /\
+             c = match Jsr.vi_lockfile_checksum vi with Some x => x | None => Jsr.vi_hash vi end.
+Proof.
+  intros W o roots g Hwf Hb v c Hin.
+  exact (proj2 (proj2 (proj2 (JsrProofs.jbuild_jinv W Hwf o roots g Hb))) v c Hin).
+Qed.
+Print Assumptions C05_registry_locker_told_only_new.
